@@ -63,6 +63,21 @@ func execEncode(in val.V) val.V {
 				}
 			case 3:
 				m.Retry = time.Duration(op.At(2).Signed())
+			case 6, 7:
+				// the ID / type arrives through UnmarshalText from a buffer the caller reuses afterwards
+				buf := append([]byte(nil), op.At(2).Bytes()...)
+				if kind == 6 {
+					var id sse.EventID
+					if id.UnmarshalText(buf) == nil {
+						m.ID = id
+					}
+				} else {
+					var ty sse.EventType
+					if ty.UnmarshalText(buf) == nil {
+						m.Type = ty
+					}
+				}
+				scribble(buf)
 			default:
 				fam = append(fam, m.Clone())
 			}
@@ -90,7 +105,26 @@ func execEncode(in val.V) val.V {
 
 var payloadPieces = []string{"a", "b c", "", " ", ":", "\n", "\r", "\r\n", "\n\n", "\r\r\n", "id: x", "data: y", "event: z", "retry: 5", "data:", "\x00", "\xef\xbb\xbf", "é", "\xff", ": c", "data", "  x", "\n\ndata: injected\n\n", "\nid: 9", "\revent: e"}
 
+// lengths around the sizes of buffers an encoder might use
+var boundaryLens = []int{55, 56, 57, 58, 59, 60, 61, 62, 63, 64, 65, 66, 120, 121, 122, 126, 127, 128, 129, 250, 254, 255, 256, 257, 506, 510, 511, 512, 513, 1018, 1022, 1023, 1024, 1025, 4088, 4090, 4094, 4095, 4096, 4097}
+
+func longLine(n, seed int) string {
+	b := make([]byte, n)
+	for i := range b {
+		b[i] = byte('a' + (i+seed)%26)
+	}
+	return string(b)
+}
+
 func genPayload(r *rng.R) string {
+	if r.Intn(40) == 0 {
+		// a line of boundary length, possibly followed by more text
+		s := longLine(rng.Pick(r, boundaryLens[:22])+r.Intn(3)-1, r.Intn(26))
+		if r.Intn(3) == 0 {
+			s += rng.Pick(r, payloadPieces)
+		}
+		return s
+	}
 	n := r.Intn(5)
 	s := ""
 	for i := 0; i < n; i++ {
@@ -124,10 +158,18 @@ func genEncodeOps(c *Ctx, ops []val.V, t int, withNul bool) []val.V {
 			if !withNul {
 				s = string(bytes.ReplaceAll([]byte(s), []byte{0}, []byte("0")))
 			}
-			ops = append(ops, val.L(val.N(1), tv, val.S(s)))
+			k := uint64(1)
+			if r.Intn(3) == 0 {
+				k = 6
+			}
+			ops = append(ops, val.L(val.N(k), tv, val.S(s)))
 			c.Count("op:id")
 		case x < 85:
-			ops = append(ops, val.L(val.N(2), tv, val.S(genPayload(r))))
+			k := uint64(2)
+			if r.Intn(3) == 0 {
+				k = 7
+			}
+			ops = append(ops, val.L(val.N(k), tv, val.S(genPayload(r))))
 			c.Count("op:type")
 		default:
 			ops = append(ops, val.L(val.N(3), tv, val.Z(retryValues[r.Intn(len(retryValues))])))
@@ -165,6 +207,25 @@ func genEncode(c *Ctx) {
 			c.Emit(val.List(append(append([]val.V{}, pre...), op, dataOp(1, "two"))))
 			c.Emit(val.List(append(append([]val.V{}, pre...), dataOp(1, "two"), op)))
 			c.Emit(val.List(append(append([]val.V{}, pre...), op)))
+		}
+	}
+	// exhaustive: one data / comment line of every length 0..300 and around larger powers of two, between two other messages
+	lens := []int{}
+	for l := 0; l <= 300; l++ {
+		lens = append(lens, l)
+	}
+	for _, b := range boundaryLens {
+		if b > 300 {
+			lens = append(lens, b)
+		}
+	}
+	for _, l := range lens {
+		for isc := 0; isc < 2; isc++ {
+			pre := []val.V{val.L(val.N(1), val.N(0), val.S("first")), dataOp(0, "one"), val.L(val.N(5), val.N(0)), val.L(val.N(5), val.N(0)), dataOp(2, "three")}
+			op := val.L(val.N(0), val.N(1), val.Int(isc), val.L(val.S(longLine(l, l))))
+			c.Count("exhaustive-line-lengths")
+			c.Emit(val.List(append(append([]val.V{}, pre...), op, dataOp(1, "two"))))
+			c.Emit(val.List(append(append([]val.V{}, pre...), dataOp(1, "two"), op)))
 		}
 	}
 	// exhaustive: a template with k lines is cloned twice; appends to the clones and the original in every order
